@@ -222,7 +222,7 @@ func (c *faCase) materialise() [][]byte {
 	}
 	for i, b := range c.File {
 		switch {
-		case b.K == "sidx" && b.Level == "file":
+		case b.K == "sidx" && (b.Level == "file" || b.Level == "file2"):
 			refs := make([]sidxRefM, len(c.P.Fps))
 			for s := range c.P.Fps {
 				first, cnt := fragOfSeg(s + 1)
@@ -232,7 +232,11 @@ func (c *faCase) materialise() [][]byte {
 				}
 				refs[s] = sidxRefM{segEnd[s+1] - segStart[s+1], d}
 			}
-			out[i] = mSidx(1, 1000, 0, segStart[1]-pos[i+1], refs) // first_offset: from the end of the sidx to the first segment
+			refID := int64(1)
+			if b.Level == "file2" {
+				refID = 2
+			}
+			out[i] = mSidx(refID, 1000, 0, segStart[1]-pos[i+1], refs) // first_offset: from the end of the sidx to the first segment
 		case b.K == "sidx" && b.Level == "segment":
 			first, cnt := fragOfSeg(b.Seg)
 			refs := make([]sidxRefM, cnt)
